@@ -18,6 +18,7 @@ import (
 	"github.com/KevoDB/kevo/pkg/memtable"
 	"github.com/KevoDB/kevo/pkg/sstable"
 	"github.com/KevoDB/kevo/pkg/stats"
+	"github.com/KevoDB/kevo/pkg/verifhook"
 	"github.com/KevoDB/kevo/pkg/wal"
 )
 
@@ -168,6 +169,8 @@ func (m *Manager) Put(key, value []byte) error {
 			return err // Return ErrWALRotating for retry handling
 		}
 
+		verifhook.Point("mgr.put.logged")
+
 		// Add to MemTable
 		m.memTablePool.Put(key, value, seqNum)
 		m.lastSeqNum = seqNum
@@ -264,6 +267,8 @@ func (m *Manager) Delete(key []byte) error {
 			}
 			return err // Return ErrWALRotating for retry handling
 		}
+
+		verifhook.Point("mgr.delete.logged")
 
 		// Add deletion marker to MemTable
 		m.memTablePool.Delete(key, seqNum)
@@ -387,8 +392,10 @@ func (m *Manager) ApplyBatch(entries []*wal.Entry) error {
 		// sequence number, so the memtable must use that same number: numbering the
 		// entries start, start+1, ... would run ahead of the log and let a batch entry
 		// outrank (or tie with) writes that are logged after it.
+		verifhook.Point("mgr.batch.logged")
 		for _, entry := range entries {
 			seqNum := startSeqNum
+			verifhook.Point("mgr.batch.insert")
 
 			switch entry.Type {
 			case wal.OpTypePut:
@@ -571,6 +578,7 @@ func (m *Manager) rotateWAL() error {
 	if currentWAL != nil {
 		currentWAL.SetRotating()
 	}
+	verifhook.Point("rotate.marked")
 
 	// Create a new WAL first before closing the old one
 	newWAL, err := wal.NewWAL(m.cfg, m.walDir)
@@ -584,11 +592,15 @@ func (m *Manager) rotateWAL() error {
 		newWAL.UpdateNextSequence(currentWAL.GetNextSequence())
 	}
 
+	verifhook.Point("rotate.new_wal")
+
 	// Store the old WAL for proper closure
 	oldWAL := m.wal
 
 	// Atomically update the WAL reference using atomic pointer operations
 	atomic.StorePointer((*unsafe.Pointer)(unsafe.Pointer(&m.wal)), unsafe.Pointer(newWAL))
+
+	verifhook.Point("rotate.swapped")
 
 	// Now close the old WAL after the new one is in place
 	if oldWAL != nil {
@@ -599,6 +611,7 @@ func (m *Manager) rotateWAL() error {
 			fmt.Printf("Warning: error closing old WAL: %v\n", err)
 		}
 	}
+	verifhook.Point("rotate.closed")
 
 	return nil
 }
@@ -655,6 +668,8 @@ func (m *Manager) Close() error {
 
 // scheduleFlush switches to a new MemTable and schedules flushing of the old one
 func (m *Manager) scheduleFlush() error {
+	verifhook.Point("mgr.schedule_flush")
+
 	// Get the MemTable that needs to be flushed
 	immutable := m.memTablePool.SwitchToNewMemTable()
 
@@ -783,10 +798,13 @@ func (m *Manager) flushMemTable(mem *memtable.MemTable) error {
 		return nil
 	}
 
+	verifhook.Point("flush.before_finish")
+
 	// Finish writing the SSTable
 	if err := writer.Finish(); err != nil {
 		return fmt.Errorf("failed to finish SSTable: %w", err)
 	}
+	verifhook.Point("flush.sst_written")
 
 	// Track bytes written to SSTable
 	m.stats.TrackBytes(true, bytesWritten)
@@ -806,6 +824,7 @@ func (m *Manager) flushMemTable(mem *memtable.MemTable) error {
 	m.mu.Lock()
 	m.sstables = append(m.sstables, reader)
 	m.mu.Unlock()
+	verifhook.Point("flush.published")
 
 	return nil
 }
@@ -823,6 +842,7 @@ func (m *Manager) backgroundFlush() {
 				return
 			}
 
+			verifhook.Point("bgflush.signal")
 			m.FlushMemTables()
 		case <-ticker.C:
 			// Periodic check
@@ -835,6 +855,7 @@ func (m *Manager) backgroundFlush() {
 			m.mu.RUnlock()
 
 			if hasWork {
+				verifhook.Point("bgflush.tick")
 				m.FlushMemTables()
 			}
 		}
